@@ -306,6 +306,8 @@ def find_nested_stores(root):
 def repair_nested_stores(root):
     r = copy.deepcopy(root)
     for n in find_nested_stores(r):
+        # keep every node in the tree (sharing between target and value must stay visible)
+        n.value = ast.Tuple(elts=[n.targets[0], n.value], ctx=ast.Load())
         n.targets = [ast.Name(id='c17_discard', ctx=ast.Store())]
     return r
 
@@ -740,7 +742,12 @@ def loaded_checks(api, fn, conv, root, recursive, feats, mon):
         out.append(('converted function comes from a module that was not loaded by this conversion', path))
     elif lds[0]['source'] != file_text:
         out.append(('module file differs from the source load_ast produced', path))
-    code = api.to_code(fn, recursive=recursive, experimental_optional_features=feats)
+    try:
+        code = api.to_code(fn, recursive=recursive, experimental_optional_features=feats)
+    except Exception as e:    # noqa
+        return out + [('to_code raised although to_graph succeeded', '%s: %s' % (type(e).__name__, str(e)[:300]))]
+    if not isinstance(code, str):
+        return out + [('to_code did not return text', repr(code)[:200])]
     flines = file_text.split('\n')
     first = conv.__code__.co_firstlineno
     clines = code.split('\n')
